@@ -1,5 +1,5 @@
 (* Property C10 — invalid use yields Err, never a panic, and an error is sticky. *)
-From QF Require Import Base.Prelude Model.Frame Model.Filter Model.Ops Proofs.StickyProofs.
+From QF Require Import Base.Prelude Gen.GenTables Model.Frame Model.Filter Model.Ops Model.Eval Proofs.StickyProofs Proofs.EvalProofs Proofs.NoPanicProofs.
 Local Open Scope nat_scope.
 
 (* the failed frame exposes no rows *)
@@ -65,3 +65,256 @@ Print Assumptions C10_filter_unknown_column.
 Example C10_illegal_names : map check_name [[]; [39; 113; 39]; [34; 113; 34]; [36; 120]; [39; 39]; [65]]%N
                             = [false; false; false; false; true; true].
 Proof. vm_compute. reflexivity. Qed.
+
+(* ====================================================================================================
+   Wave 2.  The model sends every Go index expression through idx (Panic outside the range); the theorems
+   below say that on a well formed frame (wf_frame: equal physical lengths, row index in range, enum ranks
+   valid) no operation reaches Panic and every result is well formed again — for EVERY value of the dynamic
+   argument types (wrong kinds, unknown names, bad bounds, empty And/Or, ...).
+   The only premises are about the harness' FINITE RECORDINGS of user callbacks, of the ToUpper oracle and of
+   the like-matchers, whose lookup misses are Panic in the model (clause_tables_ok, apply_tables_okb: decidable,
+   "the tables answer on the cells of the frame's rows"); they also exclude the junk values of the argument
+   types that denote no Go value (func() enum, enum constant).  They are premises of the no-panic theorems only:
+   preservation of well-formedness holds without them.
+   ==================================================================================================== *)
+
+(* ---- (1) well-formedness is preserved, whatever the arguments *)
+Theorem C10_wf_slice f a b : wf_frame f = true -> wf_frame (slice f a b) = true.
+Proof. exact (wf_slice f a b). Qed.
+Print Assumptions C10_wf_slice.
+Theorem C10_wf_select f ns : wf_frame f = true -> wf_frame (select f ns) = true.
+Proof. exact (wf_select f ns). Qed.
+Print Assumptions C10_wf_select.
+Theorem C10_wf_drop f ns : wf_frame f = true -> wf_frame (drop f ns) = true.
+Proof. exact (wf_drop f ns). Qed.
+Print Assumptions C10_wf_drop.
+Theorem C10_wf_copy f d s : wf_frame f = true -> wf_frame (copy f d s) = true.
+Proof. exact (wf_copy f d s). Qed.
+Print Assumptions C10_wf_copy.
+Theorem C10_wf_filter mt f c g : wf_frame f = true -> frame_filter mt f c = Ok g -> wf_frame g = true.
+Proof. exact (wf_filter mt f c g). Qed.
+Print Assumptions C10_wf_filter.
+Theorem C10_wf_apply ut f is g : wf_frame f = true -> apply ut f is = Ok g -> wf_frame g = true.
+Proof. exact (wf_apply ut f is g). Qed.
+Print Assumptions C10_wf_apply.
+Theorem C10_wf_filtered_apply mt ut f c is g :
+  wf_frame f = true -> filtered_apply mt ut f c is = Ok g -> wf_frame g = true.
+Proof. exact (wf_filtered_apply mt ut f c is g). Qed.
+Print Assumptions C10_wf_filtered_apply.
+Theorem C10_wf_with_row_nums f name g : wf_frame f = true -> with_row_nums f name = Ok g -> wf_frame g = true.
+Proof. exact (wf_with_row_nums f name g). Qed.
+Print Assumptions C10_wf_with_row_nums.
+Theorem C10_wf_new data order enums g : new_frame data order enums = Ok g -> wf_frame g = true.
+Proof. exact (wf_new_frame data order enums g). Qed.
+Print Assumptions C10_wf_new.
+
+(* ---- (2) no Panic: there is always a result frame (Slice, Select, Drop, Copy are total functions of the model) *)
+Theorem C10_no_panic_filter mt f c :
+  wf_frame f = true -> clause_tables_ok mt f c -> exists g, frame_filter mt f c = Ok g /\ wf_frame g = true.
+Proof. exact (total_filter mt f c). Qed.
+Print Assumptions C10_no_panic_filter.
+Theorem C10_no_panic_apply ut f is :
+  wf_frame f = true -> apply_tables_okb ut f is = true ->
+  exists g, apply ut f is = Ok g /\ wf_frame g = true /\ ix g = ix f.
+Proof. exact (total_apply ut f is). Qed.
+Print Assumptions C10_no_panic_apply.
+Theorem C10_no_panic_filtered_apply mt ut f c is :
+  wf_frame f = true -> filtered_apply_tables_ok mt ut f c is ->
+  exists g, filtered_apply mt ut f c is = Ok g /\ wf_frame g = true.
+Proof. exact (total_filtered_apply mt ut f c is). Qed.
+Print Assumptions C10_no_panic_filtered_apply.
+Theorem C10_no_panic_with_row_nums f name :
+  wf_frame f = true -> exists g, with_row_nums f name = Ok g /\ wf_frame g = true /\ ix g = ix f.
+Proof. exact (total_with_row_nums f name). Qed.
+Print Assumptions C10_no_panic_with_row_nums.
+Theorem C10_no_panic_new data order enums : exists g, new_frame data order enums = Ok g /\ wf_frame g = true.
+Proof. exact (total_new_frame data order enums). Qed.
+Print Assumptions C10_no_panic_new.
+
+(* the obligations about the GENERATED kernels and tables that the no-panic proof of Filter rests on: every
+   kernel a filter table names exists and is well typed for the cells/constant it is run on, the custom loops
+   call the predicate on the row's cell(s), the only built in Apply function is ToUpper *)
+Theorem C10_generated_kernels_typed :
+  table_typed L_i (G1 KTZ) t_i_filter1 && table_typed L_i (G0 KTZ) t_i_filterN
+  && table_typed L_i (G2 KTZ) t_i_filter2 && table_typed L_i (G0 KTZ) t_i_filter0
+  && table_typed L_f (G0 KTF) t_f_filter0 && table_typed L_f (G1 KTF) t_f_filter1 && table_typed L_f (G2 KTF) t_f_filter2
+  && table_typed L_b (G1 KTB) t_b_filter1 && table_typed L_b (G2 KTB) t_b_filter2
+  && table_typed L_s (G0 KTS) t_s_filter0 && table_typed L_s (G1 KTS) t_s_filter1
+  && table_typed L_s (G0 KTS) t_s_filterN && table_typed L_s (G2 KTS) t_s_filter2
+  && table_typed L_e (G0 KTE) t_e_filter0 && table_typed L_e (G1 KTE) t_e_filter1 && table_typed L_e (G2 KTE) t_e_filter2
+  && fname_typed L_e (G0 KTE) fname_filterWithBitset
+  && forallb (fun kv => isSome (is_like (snd kv))) t_e_filterLike = true.
+Proof. exact generated_kernels_typed. Qed.
+Print Assumptions C10_generated_kernels_typed.
+Theorem C10_kernel_typing_sound G env p e t : env_typed G env p -> ktype G e = Some t -> evals_to env p e t.
+Proof. exact (fun H => ktype_sound G env p H e t). Qed.
+Print Assumptions C10_kernel_typing_sound.
+
+(* ---- (3) one lemma per class of invalid argument: the result has Err set (and then C10_len: Len = -1) *)
+Theorem C10_filter_unknown_arg_column mt f l n s :
+  ferr f = false -> lookup_col f (lcol l) = Some s -> larg l = AColName n -> lookup_col f n = None ->
+  frame_filter mt f (CLeaf l) = Ok (with_err f).
+Proof. exact (filter_unknown_arg_column mt f l n s). Qed.
+Print Assumptions C10_filter_unknown_arg_column.
+Theorem C10_filter_unsupported_comparator mt f l s :
+  ferr f = false -> lookup_col f (lcol l) = Some s -> lcmp l = CmpOther -> (forall n, larg l <> AColName n) -> linv l = false ->
+  frame_filter mt f (CLeaf l) = Ok (with_err f).
+Proof. exact (filter_unsupported_comparator mt f l s). Qed.
+Print Assumptions C10_filter_unsupported_comparator.
+Theorem C10_filter_unknown_comparator_int mt f l d name z :
+  ferr f = false -> lookup_col f (lcol l) = Some (ICol d) -> lcmp l = CmpName name -> larg l = AInt z -> linv l = false ->
+  assocb name t_i_filter1 = None ->
+  frame_filter mt f (CLeaf l) = Ok (with_err f).
+Proof. exact (filter_unknown_comparator_int mt f l d name z). Qed.
+Print Assumptions C10_filter_unknown_comparator_int.
+Theorem C10_filter_function_type_mismatch mt f l s t tbl :
+  ferr f = false -> lookup_col f (lcol l) = Some s -> lcmp l = CmpFn1 t tbl -> fn_type_ok s t = false ->
+  (forall n, larg l <> AColName n) -> linv l = false ->
+  frame_filter mt f (CLeaf l) = Ok (with_err f).
+Proof. exact (filter_function_type_mismatch mt f l s t tbl). Qed.
+Print Assumptions C10_filter_function_type_mismatch.
+Theorem C10_filter_argument_type mt f l name :
+  ferr f = false -> lcmp l = CmpName name -> linv l = false ->
+  (exists d s, lookup_col f (lcol l) = Some (ICol d) /\ larg l = AStr s)
+  \/ (exists d v, lookup_col f (lcol l) = Some (FCol d) /\ larg l = ABool v)
+  \/ (exists d z, lookup_col f (lcol l) = Some (BCol d) /\ larg l = AInt z)
+  \/ (exists d z, lookup_col f (lcol l) = Some (SCol d) /\ larg l = AInt z)
+  \/ (exists d vs st z, lookup_col f (lcol l) = Some (ECol d vs st) /\ larg l = AInt z) ->
+  frame_filter mt f (CLeaf l) = Ok (with_err f).
+Proof. exact (filter_argument_type mt f l name). Qed.
+Print Assumptions C10_filter_argument_type.
+Theorem C10_filter_mismatched_column_types mt f l name n d d2 :
+  ferr f = false -> lcmp l = CmpName name -> linv l = false ->
+  lookup_col f (lcol l) = Some (ICol d) -> larg l = AColName n -> lookup_col f n = Some (SCol d2) ->
+  frame_filter mt f (CLeaf l) = Ok (with_err f).
+Proof. exact (filter_mismatched_column_types mt f l name n d d2). Qed.
+Print Assumptions C10_filter_mismatched_column_types.
+Theorem C10_apply_unsupported_function ut f dst s1 s2 :
+  ferr f = false -> apply_instr ut f (mkInstr FOther dst s1 s2) = Ok (with_err f).
+Proof. exact (apply_unsupported_function ut f dst s1 s2). Qed.
+Print Assumptions C10_apply_unsupported_function.
+Theorem C10_apply_unknown_source ut f fn dst s1 :
+  ferr f = false -> empty_name s1 = false -> lookup_col f s1 = None ->
+  apply_instr ut f (mkInstr fn dst s1 []) = Ok (with_err f).
+Proof. exact (apply_unknown_source ut f fn dst s1). Qed.
+Print Assumptions C10_apply_unknown_source.
+Theorem C10_apply_function_type_mismatch ut f tin tout tbl dst s1 c :
+  ferr f = false -> empty_name s1 = false -> lookup_col f s1 = Some c -> ctype_eqb (col_ftype c) tin = false ->
+  apply_instr ut f (mkInstr (F1 tin tout tbl) dst s1 []) = Ok (with_err f).
+Proof. exact (apply_function_type_mismatch ut f tin tout tbl dst s1 c). Qed.
+Print Assumptions C10_apply_function_type_mismatch.
+Theorem C10_apply2_mismatched_column_types ut f fn dst s1 s2 c1 c2 :
+  ferr f = false -> empty_name s1 = false -> empty_name s2 = false ->
+  lookup_col f s1 = Some c1 -> lookup_col f s2 = Some c2 -> ctype_eqb (col_type c1) (col_type c2) = false ->
+  apply_instr ut f (mkInstr fn dst s1 s2) = Ok (with_err f).
+Proof. exact (apply2_mismatched_column_types ut f fn dst s1 s2 c1 c2). Qed.
+Print Assumptions C10_apply2_mismatched_column_types.
+Theorem C10_apply_illegal_name ut f k dst :
+  ferr f = false -> check_name dst = false -> (forall s, k <> CEnum s) ->
+  exists g, apply_instr ut f (mkInstr (F0Const k) dst [] []) = Ok g /\ ferr g = true.
+Proof. exact (apply_illegal_name ut f k dst). Qed.
+Print Assumptions C10_apply_illegal_name.
+Theorem C10_new_illegal_name data order enums :
+  forallb (fun kv => check_name (fst kv)) data = false -> new_frame data order enums = Ok (mkFrame [] [] true).
+Proof. exact (new_frame_illegal_name data order enums). Qed.
+Print Assumptions C10_new_illegal_name.
+Theorem C10_eval_malformed ut cx f dst : ferr f = false -> eval ut cx f dst XError = Ok (with_err f).
+Proof. exact (eval_malformed ut cx f dst). Qed.
+Print Assumptions C10_eval_malformed.
+Theorem C10_eval_malformed_decoding :
+  (forall x y, new_expr (EList [EColName x; y]) = XError) /\ new_expr (EList []) = XError
+  /\ (forall a, new_expr (EList [a]) = XError) /\ new_expr EOther = XError /\ (forall name, expr_call name [] = XError).
+Proof.
+  exact (conj decode_bad_op (conj (proj1 decode_bad_len) (conj (proj2 decode_bad_len) (conj eq_refl expr_call_zero)))).
+Qed.
+Print Assumptions C10_eval_malformed_decoding.
+Theorem C10_eval_unknown_column ut cx f dst op col :
+  ferr f = false -> lookup_col f col = None -> eval ut cx f dst (XUnary op col) = Ok (with_err f).
+Proof. exact (eval_unknown_column ut cx f dst op col). Qed.
+Print Assumptions C10_eval_unknown_column.
+Theorem C10_eval_unknown_function ut cx f dst op col c :
+  ferr f = false -> lookup_col f col = Some c -> get_func cx (col_ftype c) false op = None ->
+  eval ut cx f dst (XUnary op col) = Ok (with_err f).
+Proof. exact (eval_unknown_function ut cx f dst op col c). Qed.
+Print Assumptions C10_eval_unknown_function.
+
+(* ---- (4) stickiness of Eval; on a failed frame the result depends on NO argument and NO table *)
+Theorem C10_sticky_eval ut cx f dst e : ferr f = true -> eval ut cx f dst e = Ok f.
+Proof. exact (eval_sticky ut cx f dst e). Qed.
+Print Assumptions C10_sticky_eval.
+Theorem C10_failed_no_callback_filter mt1 mt2 f c : ferr f = true -> frame_filter mt1 f c = frame_filter mt2 f c.
+Proof. exact (failed_filter_tables mt1 mt2 f c). Qed.
+Print Assumptions C10_failed_no_callback_filter.
+Theorem C10_failed_no_callback_apply ut1 ut2 f is1 is2 : ferr f = true -> apply ut1 f is1 = apply ut2 f is2.
+Proof. exact (failed_apply_tables ut1 ut2 f is1 is2). Qed.
+Print Assumptions C10_failed_no_callback_apply.
+Theorem C10_failed_no_callback_filtered_apply mt1 mt2 ut1 ut2 f c1 c2 is1 is2 :
+  ferr f = true -> filtered_apply mt1 ut1 f c1 is1 = filtered_apply mt2 ut2 f c2 is2.
+Proof. exact (failed_filtered_apply_tables mt1 mt2 ut1 ut2 f c1 c2 is1 is2). Qed.
+Print Assumptions C10_failed_no_callback_filtered_apply.
+Theorem C10_failed_no_callback_eval ut1 ut2 cx1 cx2 f dst e1 e2 :
+  ferr f = true -> eval ut1 cx1 f dst e1 = eval ut2 cx2 f dst e2.
+Proof. exact (failed_eval_tables ut1 ut2 cx1 cx2 f dst e1 e2). Qed.
+Print Assumptions C10_failed_no_callback_eval.
+
+(* ---- what is NOT a theorem yet *)
+(* Eval on a frame without Err: no Panic and preservation of well-formedness.  The model's Panic in Eval has two
+   more sources: tempColName gives up after 10000 used names (a real Go panic), and the tables of the context's
+   functions must answer on the cells of the temporary columns. *)
+Definition C10_eval_full_statement : Prop :=
+  forall ut cx f dst e g, wf_frame f = true -> eval ut cx f dst e = Ok g -> wf_frame g = true.
+(* Distinct, GroupBy and Aggregate have no frame-level model with an Err slot (Model/Grouper.v is the hash table
+   only): their stickiness is decided by the engines. *)
+
+(* ---- examples: the premises are satisfied by non-trivial inputs *)
+Definition C10_exf : frame :=
+  mkFrame [([65%N], ICol [3; 1; 2; 5]%Z);
+           ([83%N], SCol [Some [97; 98]%N; None; Some [98%N]; Some [97%N]]);
+           ([69%N], ECol [0; 255; 1; 0]%N [[120%N]; [121%N]] false)] [2; 0; 3] false.
+Definition C10_exmt : matcher_table :=
+  [(([97; 37]%N, true), Some [([97; 98]%N, true); ([98%N], false); ([97%N], true)])].
+Definition C10_exc : clause :=
+  COr [CLeaf (mkLeaf [65%N] (CmpName (bs 1 0x3e)) (AInt 4) false);
+       CNot (CLeaf (mkLeaf [83%N] (CmpName (bs 4 0x6c696b65)) (AStr [97; 37]%N) false));
+       CAnd [CLeaf (mkLeaf [65%N] (CmpFn1 TInt [(CInt 2, true); (CInt 3, false); (CInt 5, false)]%Z) ANil false);
+             CLeaf (mkLeaf [69%N] (CmpName (bs 1 0x3d)) (AStr [120%N]) false)]].
+Definition C10_exut : upper_table :=
+  [([97; 98]%N, [65; 66]%N); ([98%N], [66%N]); ([97%N], [65%N]); ([120%N], [88%N]); ([121%N], [88%N])].
+Definition C10_exis : list instr :=
+  [mkInstr (F1 TInt TString [(CInt 2, CStr (Some [50%N])); (CInt 3, CStr None); (CInt 5, CStr (Some [53%N]))]%Z) [66%N] [65%N] [];
+   mkInstr (FBuiltin name_ToUpper) [85%N] [83%N] [];
+   mkInstr (FBuiltin name_ToUpper) [69%N] [69%N] [];
+   mkInstr (F2 TInt [(CInt 2, CInt 2, CInt 4); (CInt 3, CInt 3, CInt 6); (CInt 5, CInt 5, CInt 10)]%Z) [67%N] [65%N] [65%N];
+   mkInstr (F0Const (CFloat 0%N)) [70%N] [] [];
+   mkInstr FOther [71%N] [65%N] []].
+
+Example C10_example_wf : wf_frame C10_exf = true.
+Proof. vm_compute. reflexivity. Qed.
+Example C10_example_filter_premise : clause_tables_ok C10_exmt C10_exf C10_exc.
+Proof. vm_compute. reflexivity. Qed.
+Example C10_example_filter_result :
+  frame_filter C10_exmt C10_exf C10_exc = Ok (mkFrame (cols C10_exf) [2; 3] false).
+Proof. vm_compute. reflexivity. Qed.
+Example C10_example_apply_premise : apply_tables_okb C10_exut C10_exf C10_exis = true.
+Proof. vm_compute. reflexivity. Qed.
+(* the last instruction has an unsupported function value: the chain ends with Err set, not with a panic *)
+Example C10_example_apply_result :
+  option_map ferr (match apply C10_exut C10_exf C10_exis with Ok g => Some g | _ => None end) = Some true
+  /\ option_map ferr (match apply C10_exut C10_exf (firstn 5 C10_exis) with Ok g => Some g | _ => None end) = Some false.
+Proof. split; vm_compute; reflexivity. Qed.
+(* a table that misses a cell of the frame IS a Panic of the model: the premise cannot be dropped *)
+Example C10_example_table_miss :
+  apply [] C10_exf [mkInstr (F1 TInt TInt [(CInt 2, CInt 0)]%Z) [66%N] [65%N] []] = Panic
+  /\ apply_tables_okb [] C10_exf [mkInstr (F1 TInt TInt [(CInt 2, CInt 0)]%Z) [66%N] [65%N] []] = false.
+Proof. split; vm_compute; reflexivity. Qed.
+(* and an ill formed frame (row index beyond the columns) does reach Panic: wf_frame cannot be dropped either *)
+Example C10_example_ill_formed :
+  wf_frame (mkFrame [([65%N], ICol [3; 1]%Z)] [5] false) = false
+  /\ with_row_nums (mkFrame [([65%N], ICol [3; 1]%Z)] [5] false) [82%N] = Panic.
+Proof. split; vm_compute; reflexivity. Qed.
+Example C10_example_filtered_apply_premise :
+  filtered_apply_tables_ok C10_exmt C10_exut C10_exf C10_exc C10_exis.
+Proof.
+  split; [exact C10_example_filter_premise|]. intros ff Hff _. rewrite C10_example_filter_result in Hff.
+  inversion Hff; subst ff. vm_compute. reflexivity.
+Qed.
